@@ -5,6 +5,9 @@ from mc.runner import Stats
 
 ID = "C10"
 LEVEL = "exploration"
+LEVEL_TEXT = ("bounded-exhaustive: every harness-event history up to the stated length over the stated dyadic alphabet is executed "
+              "on the real LoopingCall/Clock and compared with an exact integer boundary oracle; nothing is sampled")
+LEVEL_NOTE = "task.Clock and Deferred are trusted; float effects of non-dyadic intervals and the interval-0 special case are outside the bound"
 TECHNIQUE = "stateless exhaustive enumeration of event histories (mc.choice), exact-arithmetic reference"
 RULE = ("every history of <= L harness events {clock.advance(a), fire the outstanding Deferred ok / failed, stop(), reset()} "
         "on a real LoopingCall (plain and withCount) whose clock is task.Clock, for every (interval, now, withCount, start "
